@@ -29,7 +29,7 @@ import shutil
 import subprocess
 import threading
 import time
-from concurrent.futures import ProcessPoolExecutor, ThreadPoolExecutor
+from concurrent.futures import ThreadPoolExecutor
 
 import vlib
 from vlib import Check, run_tlc, run_cmd, build_harness, Graph, validate_trace, FrameworkError, WORK, log
@@ -104,22 +104,48 @@ def _util_objects():
     return objs
 
 
+def _compile(san, objs, probe):
+    """Compile harness/nn.cpp (as its own ccache-able step: on an unchanged tree the second run
+    costs a second; any change of the harness or of a header of the tree under test is a miss,
+    ccache hashes the preprocessed source) and link it with the util objects."""
+    src = os.path.join(vlib.HARNESS, "nn.cpp")
+    tag = ("-" + san if san else "") + ("" if probe else "-noprobe")
+    obj = os.path.join(vlib.ensure_dir(os.path.join(WORK, "c10-obj")), "nn%s.o" % tag)
+    out = os.path.join(vlib.ensure_dir(os.path.join(WORK, "bin")), "nn" + ("-" + san if san else ""))
+    sanflags = ["-fsanitize=address,undefined", "-fno-omit-frame-pointer", "-fno-sanitize-recover=undefined"] if san else []
+    cmd = ["ccache", "g++", "-std=c++17", "-O1" if san else "-O2", "-g", "-D" + vlib.GUARD, "-Wno-deprecated-declarations",
+           "-I" + os.path.join(vlib.REPO, "src"), "-I" + vlib._config_dir(), "-I/usr/include/eigen3",
+           "-I" + os.path.join(vlib.HARNESS, "common")] + sanflags + (["-DNN_PROBE"] if probe else []) + \
+          ["-c", src, "-o", obj]
+    t0 = time.time()
+    r = subprocess.run(cmd, env=vlib._ccache_env(), stdout=subprocess.PIPE, stderr=subprocess.STDOUT, text=True)
+    if r.returncode != 0:
+        raise FrameworkError("harness nn failed to compile against %s:\n%s" % (vlib.REPO, r.stdout[-6000:]))
+    tmp = out + ".tmp%d" % os.getpid()
+    r = subprocess.run(["g++", obj] + list(objs) + sanflags + ["-o", tmp, "-lpthread"], stdout=subprocess.PIPE,
+                       stderr=subprocess.STDOUT, text=True)
+    if r.returncode != 0:
+        raise FrameworkError("harness nn failed to link:\n%s" % r.stdout[-6000:])
+    os.replace(tmp, out)
+    log("[build] harness nn%s in %.1fs" % (" (" + san + ")" if san else "", time.time() - t0))
+    return out
+
+
 def _build_one(san, objs):
     """-> (binary, probe available).  The probe (-DNN_PROBE) reads protected members of the GNATs;
     if a refactoring renamed them the contract check still runs, only the counting of internal
-    transitions is lost."""
-    opt = "-O1" if san else "-O2"
+    transitions and the M4 audit are lost."""
     try:
-        return build_harness("nn", needs_lib=False, san=san, extra=tuple(["-DNN_PROBE"] + objs), opt=opt), True
+        return _compile(san, objs, True), True
     except FrameworkError as ex:
         log("[C10] probe build failed, building without it: %s" % str(ex)[-400:])
-        return build_harness("nn", needs_lib=False, san=san, extra=tuple(objs), opt=opt), False
+        return _compile(san, objs, False), False
 
 
 # ------------------------------------------------------------------ model
 def _dump_worker(config):
-    """Runs in a worker process (run_tlc's scratch directory is keyed by pid): dump the state graph
-    of one configuration, gate it, write it.  -> (TlcResult without output, path, info)"""
+    """Dump the state graph of one configuration, gate it, write it.  (Worker thread: no forking
+    once threads exist - run_tlc is thread-safe.)  -> (TlcResult without output, path, info)"""
     edges = []
     res = run_tlc("ds/NearestNeighbors", cfg=_cfg("dump-" + config, config, True, False), workers=1, timeout=1800,
                   json_sink=edges.append, heap="1g")
@@ -143,7 +169,7 @@ def _dump_worker(config):
 
 
 def _mc_worker(config, subsets):
-    """Worker process: the contract's consistency invariants on one configuration."""
+    """Worker thread: the contract's consistency invariants on one configuration."""
     res = run_tlc("ds/NearestNeighbors", cfg=_cfg("mc-" + config, config, False, subsets), workers=4, timeout=3000,
                   heap="2g")
     if res.error:
@@ -158,7 +184,7 @@ def _mc_worker(config, subsets):
 def _model(ck, mcs, configs):
     """Model-check the contract and dump the state graphs (TLC runs side by side)."""
     graphs = {}
-    with ProcessPoolExecutor(4) as exr:
+    with ThreadPoolExecutor(4) as exr:
         dumps = {c: exr.submit(_dump_worker, c) for c in configs}
         checks = {c: exr.submit(_mc_worker, c, subsets) for c, subsets in mcs}
         for c, f in dumps.items():
@@ -270,7 +296,7 @@ def _record_one(binary, idx, structure, params, nexec, nops):
 
 
 def _validate_worker(paths, gname):
-    """Worker process: TLC validates the concatenation of some recorded traces (every trace starts
+    """Worker thread: TLC validates the concatenation of some recorded traces (every trace starts
     with a Reset line) against the contract.  -> (accepted, matched prefix)"""
     if len(paths) == 1:
         tpath = paths[0]
@@ -288,7 +314,7 @@ def _validate_traces(infos, group):
     """Validate the recorded traces, several per TLC run; a rejected group is validated again trace by
     trace so that the rejection is pinned to its structure x parameter set."""
     groups = [infos[i::max(1, (len(infos) + group - 1) // group)] for i in range(max(1, (len(infos) + group - 1) // group))]
-    with ProcessPoolExecutor(max(1, min(vlib.NCPU, 6))) as exr:
+    with ThreadPoolExecutor(max(1, min(vlib.NCPU, 6))) as exr:
         futs = [(g, exr.submit(_validate_worker, [i["trace"] for i in g], str(n))) for n, g in enumerate(groups)]
         again = []
         for g, f in futs:
@@ -304,7 +330,7 @@ def _validate_traces(infos, group):
 
 
 def _kc_worker(name, pts, maxn, maxk):
-    """Worker process: model-check ds/GreedyKCenters.tla on one configuration and, in the same run,
+    """Worker thread: model-check ds/GreedyKCenters.tla on one configuration and, in the same run,
     print its terminal states (the admissible answers).  -> (TlcResult, cases path, #answers)"""
     d = vlib.ensure_dir(os.path.join(WORK, "cfg-c10"))
     cfg = os.path.join(d, "kc-%s.cfg" % name)
@@ -329,7 +355,7 @@ def _kc_worker(name, pts, maxn, maxk):
 
 
 def _audit_worker(binary, idx, structure, params, nexec, nops):
-    """Worker process: dump the internals of one GNAT under random histories and let TLC evaluate
+    """Worker thread: dump the internals of one GNAT under random histories and let TLC evaluate
     ds/GnatAudit.tla on every record."""
     tpath = os.path.join(WORK, "c10-audit-%s-%s.ndjson" % (structure, params.replace("-", "_")))
     rc, out, err = run_cmd([binary, "audit", tpath, structure, params, str(nexec), str(nops)], timeout=1800,
@@ -418,7 +444,7 @@ def run(tier):
     asan_f = builders.submit(_build_one, "asan", objs)
 
     # 1. consistency of the contract, 2. its state graphs with the answer tables, 4a. the GreedyKCenters model
-    tlc_pool = ProcessPoolExecutor(max(1, min(4, vlib.NCPU)))
+    tlc_pool = ThreadPoolExecutor(max(1, min(4, vlib.NCPU)))
     dump_f = {c: tlc_pool.submit(_dump_worker, c) for c in CONFIGS}
     kc_f = {k[0]: tlc_pool.submit(_kc_worker, *k) for k in plan["kc"]}
     mc_f = {c: tlc_pool.submit(_mc_worker, c, subsets) for c, subsets in plan["mc"]}
@@ -451,7 +477,7 @@ def run(tier):
 
     # 5. M4 audit of dumped internals (plain build; the probe is needed)
     audit_combos, a_exec, a_ops = plan["audit"]
-    aux_pool = ProcessPoolExecutor(max(1, min(vlib.NCPU, 6)))
+    aux_pool = ThreadPoolExecutor(max(1, min(vlib.NCPU, 6)))
     audit_f = [aux_pool.submit(_audit_worker, fast, i, s, p, a_exec, a_ops) for i, (s, p) in enumerate(audit_combos)] \
         if probe_fast else []
 
@@ -483,7 +509,8 @@ def run(tier):
     have_probe = probe_fast and probe_asan
     ck.set("probe_available", have_probe)
     log("[C10] ASan build ready at %.1fs" % (time.time() - t0))
-    rec_f = [pool.submit(_record_one, asan, i, s, p, nexec, nops) for i, (s, p) in enumerate(COMBOS)]
+    rec_pool = ThreadPoolExecutor(max(1, min(3, vlib.NCPU)))   # ahead of the queued exhaustive walks: TLC comes after
+    rec_f = [rec_pool.submit(_record_one, asan, i, s, p, nexec, nops) for i, (s, p) in enumerate(COMBOS)]
     for config, walks, wl in plan["rnd"]:
         for s, p in COMBOS:
             futs.append(pool.submit(_replay_job, agg, asan, config, graphs[config], 0, s, p, walks, wl, "full", 0, vlib.seed()))
@@ -613,8 +640,17 @@ def run(tier):
             continue
         shutil.copyfile(info["trace"], rp)
         inv = info["violated"] if info["violated"] in AUDIT_INVARIANTS else "rejected"
-        ck.violation("audit:%s:%s" % (inv, label), "internal structure of %s dumped after mutation %d of a random history "
-                     "violates %s (specs/ds/GnatAudit.tla)" % (label, (info["prefix"] or 0) + 1, inv), rp)
+        # informational: how long before a wrong answer became visible did the audit fire (same execution)?
+        evs = vlib.read_ndjson(info["trace"])
+        at = info["prefix"] or 0
+        end = next((i for i in range(at + 1, len(evs)) if evs[i].get("e") == "Reset"), len(evs))
+        dense = next((i + 1 for i in range(at, end) if evs[i].get("vis")), None)
+        sparse = next((i + 1 for i in range(at, end) if evs[i].get("visSparse")), None)
+        ck.violation("audit:%s:%s" % (inv, label), "internal structure of %s dumped at record %d of a random history violates "
+                     "%s (specs/ds/GnatAudit.tla); first wrong answer of a 16-point query battery run after every "
+                     "mutation: %s; of a client issuing one random query per operation: %s (execution ends at record %d)"
+                     % (label, at + 1, inv, "record %d" % dense if dense else "none", "record %d" % sparse if sparse else "none",
+                        end), rp)
     ck.set("audit", audit_stats)
     if audit_stats["combinations"]:
         ck.sample({"kind": "M4 audit of dumped GNAT internals", "stats": audit_stats, "invariants": AUDIT_INVARIANTS})
